@@ -65,7 +65,7 @@ def _(c):
               " and implies(q in self._records, self._records[q] == old(self._records[q]))))")
 
 
-@contract(MOD + ":Fetcher._proc_fetch_request", ["C03", "C13", "C05"])
+@contract(MOD + ":Fetcher._proc_fetch_request", ["C03", "C13", "C05", "C04"])
 def _(c):
     c.self_("Fetcher")
     c.param("assignment", Ref("Assignment"))
